@@ -1602,6 +1602,18 @@ class StridedInterval:
 
         return (x & (2**bits - 1)) < (y & (2**bits - 1))
 
+    def _has_member(self, v: int) -> bool:
+        """
+        Whether the integer `v` is one of the values of this interval: it lies on the stride lattice that starts at the
+        lower bound and runs (around the south pole, if the interval wraps) up to the upper bound.
+        """
+        if self.is_empty:
+            return False
+        offset = self._modular_sub(v, self.lower_bound, self.bits)
+        if self.stride == 0:
+            return offset == 0
+        return offset <= self._modular_sub(self.upper_bound, self.lower_bound, self.bits) and offset % self.stride == 0
+
     def _surrounds_member(self, v: int) -> bool:
         return self._lex_lte(v - self.lower_bound, self.upper_bound - self.lower_bound, self.bits)
 
@@ -2934,14 +2946,14 @@ class StridedInterval:
 
         elif self.is_integer:
             integer = self.lower_bound
-            if (b.lower_bound - integer) % b.stride == 0 and b._surrounds_member(integer):
+            if b._has_member(integer):
                 ret = (StridedInterval(bits=self.bits, stride=0, lower_bound=integer, upper_bound=integer),)
             else:
                 ret = (StridedInterval.empty(self.bits),)
 
         elif b.is_integer:
             integer = b.lower_bound
-            if (integer - self.lower_bound) % self.stride == 0 and self._surrounds_member(integer):
+            if self._has_member(integer):
                 ret = (StridedInterval(bits=self.bits, stride=0, lower_bound=integer, upper_bound=integer),)
             else:
                 ret = (StridedInterval.empty(self.bits),)
